@@ -140,6 +140,22 @@ C["C05"]["harnesses"] += [
 ]
 C["C05"]["assumptions"] += ["a returned WriteAt is durable (O_SYNC, checked by ZZOpenSync; kernel behaviour outside)", "one resume update = one atomic bbolt transaction (bbolt's own crash atomicity outside)", "the periodic stats writer goroutine is outside the claim (it persists the same in-memory bitfield under the read lock)"]
 
+SECRW = H("ZZSectionRW2", "internal/filesection", "filesection.Piece.Write then ReadAt of any sub-range (1..16384 bytes) on <=2 sections (data on in-memory files at arbitrary offsets, or padding), piece <= 64 KiB, arbitrary content: every non-padding byte lands at its file position, padding is never written and reads as zero, read-back == written", T(40, 1800, 6, 5), T(40, 1800, 6, 5))
+C["C02"]["harnesses"] += [SECRW, H("ZZSectionRW3", "internal/filesection", "same with <=3 sections", None, T(40, 7000, 32, 8))]
+C["C01"]["harnesses"] += [SECRW]
+C["C03"]["harnesses"] += [
+    H("ZZRequestStepShortLast", "torrent", "request handler with a short last piece (8197 bytes): requests beyond the last piece's own length are refused", T(40, 900, flags=["-nospawn"]), T(40, 900, flags=["-nospawn"]), replay="model"),
+]
+C["C11"]["harnesses"] += [
+    H("ZZWriterPieceTwice", "internal/peerconn/peerwriter", "the same request served twice: second answer is a reject frame and is not counted as uploaded payload", T(45, 600), T(45, 600)),
+]
+C["C09"]["harnesses"] = [h for h in C["C09"]["harnesses"] if h["fn"] != "ZZPickerSequential3"] + [
+    H("ZZPickerRich1", "torrent", "arbitrary progress (verified pieces), arbitrary bitfields and choke state of both peers, then 1 event (reaches end-game and stalled-download states)", T(40, 1800, 8, 6, flags=["-nospawn"]), None, replay="model"),
+    H("ZZPickerSequential3", "torrent", "3 events in sequential mode, plus: a non-allowed-fast pick for an unchoked peer is the lowest eligible piece, file-edge pieces first", None, T(40, 3600, 16, 7, flags=["-nospawn"]), replay="model"),
+    H("ZZPickerRich2", "torrent", "rich initial state then 2 events", None, T(40, 7000, 32, 8, flags=["-nospawn"]), replay="model"),
+    H("ZZPickerRichSequential1", "torrent", "rich initial state, sequential mode, 1 event", None, T(40, 3600, 16, 7, flags=["-nospawn"]), replay="model"),
+]
+
 for pid, spec in C.items():
     spec = dict(property=pid, **spec)
     json.dump(spec, open(os.path.join(D, pid + ".json"), "w"), indent=1)
